@@ -2,6 +2,8 @@ package ch
 
 import (
 	"context"
+	"net"
+	"time"
 
 	"github.com/go-faster/errors"
 	"go.opentelemetry.io/otel/trace"
@@ -54,9 +56,22 @@ func (c *Client) handshake(ctx context.Context) error {
 			return errors.Wrap(err, "flush")
 		}
 
-		code, err := c.packet(ctx)
-		if err != nil {
-			return errors.Wrap(err, "packet")
+		var code proto.ServerCode
+		for {
+			var err error
+			if code, err = c.packet(ctx); err != nil {
+				// Single packet read timeout is shorter than handshake
+				// timeout, which is intended for servers that are slow to
+				// wake up, so retrying until handshake context is done.
+				var opErr *net.OpError
+				if errors.As(err, &opErr) && opErr.Timeout() && ctx.Err() == nil {
+					if d, ok := ctx.Deadline(); !ok || time.Now().Before(d) {
+						continue
+					}
+				}
+				return errors.Wrap(err, "packet")
+			}
+			break
 		}
 		if code == proto.ServerCodeException {
 			// Bad password, etc.
